@@ -282,7 +282,7 @@ PROPS = {
         "theorems": ["ShapeVerif.merger_idem", "ShapeVerif.merge_null_right", "ShapeVerif.merge_null_left",
                      "ShapeVerif.merger_comm_sem", "ShapeVerif.object_struct", "ShapeVerif.array_struct",
                      "ShapeVerif.scalar_struct", "ShapeVerif.sources_idem", "ShapeVerif.sources_idem_k", "ShapeVerif.sources_null",
-                     "ShapeVerif.sources_comm", "ShapeVerif.sources_idem_text", "ShapeVerif.sources_null_text",
+                     "ShapeVerif.sources_comm", "ShapeVerif.sources_idem_text", "ShapeVerif.sources_idem_k_text", "ShapeVerif.sources_null_text",
                      "ShapeVerif.sources_comm_text"],
         "extra_modules": ["ShapeVerif.Props.TextLevel"],
         "statements": {
